@@ -211,7 +211,7 @@ def lock_stmt(st):
     return None
 
 
-def arm_body(stmts):
+def arm_body(stmts, actor_name="inter_actor"):
     """[lock;] (call ; | tx . send ( call ) <onclosed> ;)"""
     lock = None
     if len(stmts) == 2:
@@ -226,14 +226,14 @@ def arm_body(stmts):
         return None
     st = st[:-1]
     e = match(st, "$tx:ident . send ( $call:rest ) $suffix:rest")
-    if e is not None and e["tx"].s != "actor" or (e is not None and e["tx"].s == "actor" and False):
+    if e is not None and e["tx"].s not in (actor_name, "actor") and (lock is None or e["tx"].s != lock["binder"]):
         call, aw = user_call(e["call"])
         return {"lock": lock, "call": call, "await": aw, "reply": (("SVar", e["tx"].s), on_closed_suffix(e["suffix"]))}
     call, aw = user_call(st)
     return {"lock": lock, "call": call, "await": aw, "reply": None}
 
 
-def parse_arm(pat, body):
+def parse_arm(pat, body, actor_name="inter_actor"):
     """pat: tokens before `=>`; body: tokens after"""
     e = match(pat, "Self :: $v:ident { .. }")
     if e is not None:
@@ -259,7 +259,7 @@ def parse_arm(pat, body):
             else:
                 return U(pat + body)
         if len(body) == 1 and body[0].k == "g" and body[0].s == "{":
-            ab = arm_body(split_stmts(body[0].sub))
+            ab = arm_body(split_stmts(body[0].sub), actor_name)
             if ab is not None:
                 return ("ArmStruct", e["v"].s, binds, ab)
     return U(pat + body)
@@ -293,7 +293,7 @@ def parse_direct(m):
         while k < len(toks) and not is_p(toks[k], ","):
             body.append(toks[k])
             k += 1
-        arms.append(parse_arm(pat, body))
+        arms.append(parse_arm(pat, body, out["param"]))
         i = k + 1
     out["arms"] = arms
     out["ok"] = True
@@ -375,7 +375,7 @@ def parse_msg_build(toks, script_names):
         e = match(toks, t)
         if e is not None:
             segs = [x.s for x in strip_turbofish(e["p"]) if x.k == "id"]
-            ab = arm_body(split_stmts(e["body"]))
+            ab = arm_body(split_stmts(e["body"]), e["a"].s)
             if ab is None or len(segs) != 2:
                 if asyncf:
                     return U(toks)
